@@ -39,6 +39,12 @@ encoding (`<str>`), an absent optional item is the token `none`.  `<state>` is `
      `blend/b`, `dispose/o` (`-` = no call); `<ri>` = `ok` | `err:<class>`; `<fc>` as in `enc fctl`;
      then ` inv=<0|1>` (`FcInv cw ch fc`)
 
+  `c17 fcstream <cw> <ch> <events>` -> `<r1>,<r2>,…;<fc>|<fc>|…`    fcRun on `⟨initialFc cw ch, none⟩`: the writer's
+     frame control and the stream writer's copy.  `<events>` = `;`-separated `w/<op>` (Writer setter), `s/<op>`
+     (StreamWriter setter), `img` / `img0` (write_image_data, with / without an fcTL), `open` / `open0`
+     (StreamWriter::new), `next` (new_frame), `close`; `<op>` as in `fcops`.  `<ri>`: one per setter event;
+     `<fc>`: one per fcTL written, as in `enc fctl` (sequence number always 0: not tracked)
+
 THE CODEC.  `c17Codec.compress` writes a zlib stream of stored blocks (RFC 1950/1951, Adler-32
 computed here); `decompress` / `decompressBounded` are the Lean inflater of `Model/Inflate.lean`, the
 same one `realCfg` gives the decoder model, so `CfgAgrees (realCfg true) c17Codec` holds by
@@ -201,6 +207,17 @@ def runFcOps (cw ch : Nat) : FrameControl → List FcOp → List String → List
     | .ok fc' => runFcOps cw ch fc' ops ("ok" :: acc)
     | .error e => runFcOps cw ch fc ops (s!"err:{encErrClass e}" :: acc)
 
+def parseFcEvent (s : String) : Option FcEvent :=
+  if s == "img" then some (.image true)
+  else if s == "img0" then some (.image false)
+  else if s == "open" then some (.openStream true)
+  else if s == "open0" then some (.openStream false)
+  else if s == "next" then some .nextFrame
+  else if s == "close" then some .closeStream
+  else if s.startsWith "w/" then (parseFcOp (s.drop 2).toString).map FcEvent.writerSet
+  else if s.startsWith "s/" then (parseFcOp (s.drop 2).toString).map FcEvent.streamSet
+  else none
+
 def bodyOut (r : Except TextEncErr Bytes) : String :=
   match r with
   | .ok b => toHexL b
@@ -272,6 +289,13 @@ def c17 (args : List String) : String :=
         | some tcs => fullInfoStr (some { expectedInfo m with text := tcs })
         | none => "err:view"
     | none => "bad-op"
+  | ["fcstream", cw, ch, evs] =>
+    match u32? cw, u32? ch, (if evs == "-" then some [] else (evs.splitOn ";").mapM parseFcEvent) with
+    | some cw, some ch, some evs =>
+      let (_, rs, es) := fcRun cw ch ⟨initialFc cw ch, none⟩ evs [] []
+      let rstr := rs.map fun (r : Except EncErr Unit) => match r with | .ok () => "ok" | .error e => s!"err:{encErrClass e}"
+      s!"{",".intercalate rstr};{"|".intercalate (es.map fcStr)}"
+    | _, _, _ => "bad-op"
   | ["fcops", cw, ch, ops] =>
     match u32? cw, u32? ch, (if ops == "-" then some [] else (ops.splitOn ";").mapM parseFcOp) with
     | some cw, some ch, some ops =>
